@@ -4,6 +4,7 @@ package main
 // (E-must), who-may-call / who-may-touch (E-who), value tracing.
 
 import (
+	"fmt"
 	"go/constant"
 	"go/token"
 	"go/types"
@@ -478,4 +479,48 @@ func typeIs(t types.Type, pkgpath, name string) bool {
 		return false
 	}
 	return n.Obj().Pkg().Path() == pkgpath && n.Obj().Name() == name
+}
+
+// coAssigned: every store to the primary struct field (outside composite-literal initialisation) is
+// followed, on every path to the function's exit, by a store to each partner field. Returns the number
+// of primary stores examined. ("fields that describe one buffer are always reassigned together")
+func coAssigned(r *Report, rule string, primary *types.Var, partners []*types.Var, scopePkg string) int {
+	n := 0
+	for _, f := range r.P.SrcFuncs() {
+		if relPkg(f) != scopePkg {
+			continue
+		}
+		allInstrs(f, func(in ssa.Instruction) {
+			st, ok := in.(*ssa.Store)
+			if !ok {
+				return
+			}
+			fa, ok := st.Addr.(*ssa.FieldAddr)
+			if !ok || fieldVar(fa) != primary {
+				return
+			}
+			if al, isAlloc := fa.X.(*ssa.Alloc); isAlloc && al.Comment == "complit" {
+				return // constructor literal
+			}
+			n++
+			r.Fn(f)
+			for _, pv := range partners {
+				key := fmt.Sprintf("%s/store(%s)-then-store(%s)", fname(f), primary.Name(), pv.Name())
+				exits := exitsAvoiding(st, func(i ssa.Instruction) bool {
+					s2, ok := i.(*ssa.Store)
+					if !ok {
+						return false
+					}
+					fa2, ok := s2.Addr.(*ssa.FieldAddr)
+					return ok && fieldVar(fa2) == pv
+				}, false)
+				if len(exits) == 0 {
+					r.Ok(rule, key, st.Pos(), "%s is reassigned together with %s on every path", pv.Name(), primary.Name())
+				} else {
+					r.Fail(rule, key, st.Pos(), "%s is assigned here but %s is not reassigned before the function returns (%s): the two describe the same buffer (a guard on one no longer protects an index into the other)", primary.Name(), pv.Name(), r.P.pos(exits[0].Pos()))
+				}
+			}
+		})
+	}
+	return n
 }
